@@ -223,7 +223,8 @@ def gen(ctx):
                     b['opts']['dest'] = rng.choice(targets)
                     continue
             if b['kind'] == 'fsm':
-                b['opts']['chain'] = rng.choice(['none', 'none', 'enter', 'timer', 'timed_enter'])
+                b['opts']['chain'] = rng.choice(['none', 'none', 'enter', 'timer', 'timed_enter',
+                                                 'timer_notrans'])
                 # an exit action that sends an event to its own FSM: never a documented
                 # exception, not even in the intermediate state of a chained transition
                 b['opts']['exit_send'] = rng.choice(['none', 'none', 'none', 'b', 'a', 'c'])
@@ -238,11 +239,12 @@ def gen(ctx):
             for _ in range(k):
                 j = rng.randrange(nb)
                 via = {'probe': ['fwd'], 'input': ['on_output', 'on_every'],
-                       'counter': ['on_output', 'on_every'], 'fsm': ['on_enter_a', 'on_enter_b', 'on_output', 'on_exit_a', 'on_exit_b'],
+                       'counter': ['on_output', 'on_every'], 'fsm': ['on_enter_a', 'on_enter_b', 'on_output', 'on_exit_a', 'on_exit_b',
+                               'on_notrans', 'on_notrans'],
                        'ofunc': ['on_success']}[b['kind']]
                 edge = {'to': j, 'via': rng.choice(via),
                         'filter': rng.choice([None, None, None, 'pass', 'reject', 'alt', 'reject_obj',
-                                            'reject_partial']),
+                                            'reject_partial', 'reject_dataedit']),
                         'cond': rng.choice([None, None, None, 'tn', 'nt', 'tt'])}
                 if blocks[j]['kind'] in ('input', 'counter', 'fsm') and rng.random() < 0.06:
                     # an event type the destination does not know: a harmless failure that is
@@ -301,16 +303,25 @@ def run_case(case, ctx):
                 mon.depth[self] = d - 1
 
     class Toggle(edzed.FSM):
-        STATES = ['a', 'b', 'c']
+        STATES = ['a', 'b', 'c', 'd']
         EVENTS = [['toggle', 'a', 'b'], ['toggle', 'b', 'a'], ['toggle', 'c', 'a'],
-                  ['hop', None, 'a']]
-        TIMERS = {'c': (0, 'hop')}
+                  ['toggle', 'd', 'a'], ['hop', None, 'a'], ['nohop', 'c', 'a']]
+        # 'd': zero-length timer whose timed event has no transition there: it is refused
+        # (on_notrans events are sent) and the FSM stays in 'd'
+        TIMERS = {'c': (0, 'hop'), 'd': (0, 'nohop')}
 
         def enter_b(self):
             if self.x_chain == 'enter':
                 self.x_in_enter = getattr(self, 'x_in_enter', 0) + 1
                 try:
                     self.event('hop')       # chained transition (documented exception)
+                finally:
+                    self.x_in_enter -= 1
+            elif self.x_chain == 'timer_notrans':
+                self.x_in_enter = getattr(self, 'x_in_enter', 0) + 1
+                try:
+                    ctx.count('refused_zero_length_timed_event')
+                    self.event(edzed.Goto('d'))     # -> zero-length timer -> 'nohop' refused
                 finally:
                     self.x_in_enter -= 1
             elif self.x_chain in ('timer', 'timed_enter'):
@@ -376,6 +387,12 @@ def run_case(case, ctx):
                 ctx.count('filter_rejections')
                 return answer
             flt = functools.partial(rej, 0)     # any false non-mapping value rejects
+        elif e['filter'] == 'reject_dataedit':
+            def rejecting(_value):
+                ctx.count('filter_rejections')
+                return edzed.DataEdit.REJECT
+            # a rejecting step in the middle of a chain of edits
+            flt = edzed.DataEdit.add(vf_probe=0).modify('vf_probe', rejecting).add(checked=True)
         elif e['filter'] == 'alt':
             key = (b['name'], idx)
 
@@ -387,6 +404,9 @@ def run_case(case, ctx):
                 return d
         if dest['kind'] == 'repeat' and isinstance(etype, edzed.EventCond):
             etype = 'put'
+        if e['via'] == 'on_notrans':
+            # (on_notrans events carry no 'value' item, most destinations need one)
+            flt = [lambda d: {**d, 'value': 1}] + ([flt] if flt is not None else [])
         return edzed.Event(dest['name'], etype, efilter=flt)
 
     def build():
@@ -418,6 +438,7 @@ def run_case(case, ctx):
                 created[i] = Toggle(name, on_enter_a=evs.get('on_enter_a'),
                                     on_enter_b=evs.get('on_enter_b'),
                                     on_exit_a=evs.get('on_exit_a'), on_exit_b=evs.get('on_exit_b'),
+                                    on_notrans=evs.get('on_notrans'),
                                     on_output=evs.get('on_output'), x_chain=b['opts']['chain'],
                                     x_exit_send=b['opts'].get('exit_send', 'none'), **dbg)
             elif k == 'repeat':
